@@ -827,6 +827,12 @@ impl<'w> Exec<'w> {
                     self.rename_loop(at, path, *pos, new_name);
                 }
             }
+            Ev::Sem { .. } if self.external_pending => {
+                // the disk changed behind the server's back and it has not been told anything
+                // since: its view may lag, the semantic answers are not judged now
+                self.stats.count("comparison_skipped_external_change_pending", 1);
+                sent = false;
+            }
             Ev::Sem { target, mode } => {
                 if let Some(t) = self.sem.get(*target).cloned() {
                     if mode == "C17" {
